@@ -121,10 +121,10 @@ def counters(chk, repo):
            "checked or cleared: their counters accumulate and a failing "
            "input terminal goes unnoticed" if not ok else
            "reads and writes alike")
-    ok = len(rec) == 1 and match("self.size - 2", rec[0].targets[0].slice) \
-        is not None and unparse(rec[0].value) == "counter"
+    from .c11 import counter_key
+    ok, why = counter_key(repo)
     chk.ob("R30.2", sp.qualname + ".append", "keyed at the working counter's "
-           "position", ok, rec[0] if rec else ap, "size - 2 after the "
+           "position", ok, rec[0] if rec else ap, why or "size - 2 after the "
            "append")
     ok = bool(find("self.append(cmd, *args, **kwargs)", aw))
     chk.ob("R30.2", sp.qualname + ".append_writer", "writers go through "
@@ -172,10 +172,37 @@ def sends(chk, repo):
           for h in t.handlers if "TimeoutError" in unparse(h.type or
                                                           ast.Constant(""))]
     ok = len(hs) == 1 and bool(find(
-        "self.ec.roundtrip_packet($f, self.packet_index)", hs[0])) and any(
-        isinstance(s, ast.Continue) for s in hs[0].body)
+        "self.ec.roundtrip_packet($f, self.packet_index)", hs[0]))
+    if ok:
+        # from the re-send the loop comes back to the wait without running
+        # update_devices on the stale frame (`continue`, or the rest of the
+        # round in an else clause: the CFG decides)
+        inside = {id(x) for x in ast.walk(hs[0])}
+        resend = [n for n, c, b in sn if id(c) in inside]
+        upd = {n.id for n in cfg.nodes if n.expr is not None and find(
+            "self.update_devices($*a)", n.expr)}
+        waits = {n.id for n in cfg.nodes if n.expr is not None and find(
+            "wait_for(future, $*a, $**)", n.expr)}
+        ok = bool(resend) and bool(upd) and bool(waits)
+        for r in resend:
+            seen_, todo = set(), [r]
+            hit_wait = False
+            while todo and ok:
+                x = todo.pop()
+                for m, lab in x.succ:
+                    if lab == "exc" or m.id in seen_:
+                        continue
+                    seen_.add(m.id)
+                    if m.id in upd:
+                        ok = False
+                    elif m.id in waits:
+                        hit_wait = True
+                    else:
+                        todo.append(m)
+            ok = ok and hit_wait
     chk.ob("R30.3", sym, "a timeout re-sends and waits again", ok,
-           hs[0] if hs else wl, "future = roundtrip_packet(...); continue")
+           hs[0] if hs else wl, "from the re-send every path reaches the "
+           "next wait_for without passing update_devices")
     ud = [n for n in cfg.nodes if n.kind == "stmt" and match_stmt(
         "data = self.update_devices(data)", n.stmt) is not None]
     wf = [n for n in cfg.nodes if n.kind == "stmt" and match_stmt(
